@@ -240,10 +240,15 @@ def run_line(line):
     except Exception as e:
         return "cfgerr:" + type(e).__name__
     for trx in app.trx_list.trx_list:
-        # every mutex of the transceiver object, under whatever (private) name
-        locks = [k for k, v in vars(trx).items() if type(v).__name__ in ("lock", "RLock", "_RLock")] or ["_tx_queue_lock"]
-        for k in locks:
-            setattr(trx, k, PausingLock())
+        # every mutex of the transceiver object or of a helper object it owns, under whatever (private) name
+        locks = wh.reachable(trx, lambda x: type(x).__name__ in ("lock", "RLock", "_RLock"), depth_max=3)
+        for owner, k, _ in locks:
+            if isinstance(owner, (dict, list)):
+                owner[k] = PausingLock()
+            elif not isinstance(owner, (tuple, set, frozenset)):
+                setattr(owner, k, PausingLock())
+        if not locks:
+            trx._tx_queue_lock = PausingLock()
     wh.CUR_APP[0] = app
     wh.CALLS.clear(); FWD.clear()
     res = []
